@@ -95,8 +95,10 @@ def make_items(tier, seed):
     P = [p for p in progs() if corpus.size_ok(p[1], 16, 80)]
     out = []
     for opt in ("default", "fast"):
-        for fam, src in P:
-            if opt == "fast" and tier != "thorough" and fam != "sig":
+        for k, (fam, src) in enumerate(P):
+            # quick: the signature core under both profiles, every other program under one of them
+            # (alternating), thorough: everything under both
+            if tier != "thorough" and fam != "sig" and (opt == "fast") != (k % 2 == 1):
                 continue
             out.append({"fam": fam, "src": src, "opt": opt, "uncompute": True})
     # the round trip is claimed for every compiler setting: circuits left un-uncomputed, both profiles,
@@ -116,8 +118,8 @@ def make_items(tier, seed):
             out.append({"fam": "cfg:" + fam, "src": src, "opt": "fast", "uncompute": True, "history": True})
     if tier == "thorough":
         return out
-    core = [sp for sp in out if sp["fam"] == "sig"]
-    rest = [sp for sp in out if sp["fam"] != "sig"]
+    core = [sp for sp in out if sp["fam"] == "sig" or sp["fam"] == "cfg:ctl-stale"]
+    rest = [sp for sp in out if sp not in core]
     return slice_quick(core + rest, seed, len(core), 120)
 
 
